@@ -24,7 +24,7 @@ func init() {
 		Explanation: `R08.1 accounting: every op written by the diff's op writer updates exactly one of FreshBytes/ReusedBytes before the write; R08.2 both sides use the same weak (βhash) and strong (uniqueHash) hash functions; ` +
 			`R08.3 after a match the rolling state is reset and the library lookup is skipped only while rolling with an unchanged hash; R08.4 library completeness: NewBlockLibrary inserts every hash, and findUniqueHash gives up (returns nil) only after its fallback loop exhausted the whole bucket. ` +
 			`R08.6 every way round the loop from the rolling-checksum update back to it slides the hash window by one byte (or restarts the hash from scratch). ` +
-			`NOT decided (numerical): that the rolling update equals βhash at every offset, the per-edit bound, the values of FreshBytes/ReusedBytes.`,
+			`R01.8 (shared) every file announced in the patch went through the differ (no per-file shortcut that looks blocks up by its own conventions). NOT decided (numerical): that the rolling update equals βhash at every offset, the per-edit bound, the values of FreshBytes/ReusedBytes.`,
 		Run:        runC08,
 		Fixtures:   fixturesAlias,
 		FixturePkg: "aliasfx",
@@ -543,6 +543,7 @@ func runC08(c *core.Ctx) {
 	c.Rule("R08.2", "same weak and strong hash functions on both sides")
 	c.Rule("R08.3", "re-synchronisation after a match")
 	c.Rule("R08.4", "library completeness")
+	ruleEveryFileThroughTheDiffer(c)
 	ruleShortSizeIsShort(c, "R04.5")
 	ruleNoAppendToInteriorSubslice(c, "R08.5", "/wsync", "/pwr", "/bsdiff", "/pwr/bowl", "/pwr/patcher", "/pwr/rediff")
 	// ---- R08.1
